@@ -48,7 +48,7 @@ func c01SortKind(sortClause string) string {
 func c01QueryText(top *c01Filter, sortClause string) string {
 	s := ""
 	if sortClause != "" {
-		s = "sort by " + sortClause
+		s = c01Kw("sort", "sort") + " " + c01Kw("by", "sort") + " " + sortClause
 	}
 	return c01JoinQuery(top.a.text(), s, c01PagingText(top))
 }
@@ -123,8 +123,20 @@ func c01UnivToken(univ []string) string {
 
 func (r *c01Runner) runStrategy(store int, top *c01Filter, st c01Strat) {
 	text := c01QueryText(top, st.sort)
+	term := top.term()
+	// a share of the lines spells the keywords of the query in another case (c01_kwcase.go); the sort clause token of
+	// the line carries the directions as they were spelled
+	if ks := r.kwStyleFor(term + "|" + st.sort); ks != nil {
+		c01KwCur = ks
+		cased := c01KwSortClause(st.sort)
+		if t2 := c01QueryText(top, cased); t2 != text {
+			text, term, st.sort = t2, term+c01KwToken(ks), cased
+			r.stats["keyword-case:T:"+string(ks.kind)]++
+		}
+		c01KwCur = nil
+	}
 	watchdogBeat(fmt.Sprintf("%d %s", store, text))
-	r.strategyLine(store, st, text, top.term())
+	r.strategyLine(store, st, text, term)
 }
 
 func (r *c01Runner) strategyLine(store int, st c01Strat, text string, term string) {
